@@ -39,6 +39,16 @@ def open_writer(top, cfg):
     )
 
 
+def _strided(a):
+    big = np.zeros((2 * len(a),) + a.shape[1:], dtype=a.dtype)
+    if big.dtype.kind in "iu":
+        big[...] = 77
+    big[::2] = a
+    v = big[::2]
+    assert len(a) < 2 or not v.flags["C_CONTIGUOUS"]
+    return v
+
+
 def do_op(w, cfg, op):
     """execute one write op (valid or invalid) -> return value; raises what the API raises"""
     k = op["op"]
@@ -46,6 +56,8 @@ def do_op(w, cfg, op):
         bits = M.write_data_bits(cfg, op["_rel"] if op.get("_rel") is not None else (op["rel"] or 0),
                                  op["len"], op["salt"])
         arr = M.input_array(cfg, bits)
+        if op.get("layout") == "data_strided":
+            arr = _strided(arr)
         if op["rel"] is None:
             return int(w.rf_write(arr))
         return int(w.rf_write(arr, op["rel"]))
@@ -59,6 +71,18 @@ def do_op(w, cfg, op):
         arr = M.input_array(cfg, bits)
         ga = np.array(g, dtype=np.int64 if min(g) < 0 else np.uint64)
         ba = np.array(b, dtype=np.int64 if min(b) < 0 else np.uint64)
+        lay = op.get("layout")
+        if lay == "strided":
+            # every second element of a larger table (a view, not C-contiguous)
+            ga, ba = _strided(ga), _strided(ba)
+        elif lay == "column":
+            tab = np.zeros((len(g), 2), dtype=ga.dtype)
+            tab[:, 0] = ga
+            tab[:, 1] = 0xDEADBEEF
+            ga = tab[:, 0]
+            ba = _strided(ba)
+        elif lay == "data_strided":
+            arr = _strided(arr)
         return int(w.rf_write_blocks(arr, ga, ba))
     raise ValueError("unknown op %r" % k)
 
